@@ -45,7 +45,7 @@ FLOORS = {"quick": {"docs_compared": 500, "docs_with_multibyte_neighbour": 300, 
                        "fault_cases": 20000, "fault:truncate": 15000, "fault:full_db": 40}}
 NDOC = {"quick": 110, "thorough": 2500}
 SHARDS = {"quick": 8, "thorough": 14}
-MB = ["“", "”", "’", "—", "é", "ü", "§", "¶", "…", "™", "\U00010000", "ñ", "–"]
+MB = ["“", "”", "’", "—", "é", "ü", "§", "¶", "…", "™", "\U00010000", "ñ", "–", "\ud83d", "\udc00"]
 FR = ["Foo v. Bar, 1 U.S. 1 (1999)", "2 F.2d 3, 5", "Id. at 5", "Foo, supra, at 3", "Mass. Gen. Laws ch. 1, § 2",
       "42 U.S.C. § 1983", "1 Minn. L. Rev. 1", "see also", "Roe, 410 U.S. at 120", "In re Gault",
       "Bankr. L. Rep. (CCH) ¶12,345", "Ibid.", "§§ 1-2", "cert. denied", "1 Thompson 5", "T.C. Memo. 2019-233",
@@ -215,7 +215,7 @@ def compare_doc(text, rec, ref, hs, by_type):
         lo, hi = max(x.start - 1, 0), min(x.end + 1, len(text))
         touches = any(ord(c) > 127 for c in text[lo:x.start] + text[x.end:hi])
         mb_neighbour = mb_neighbour or touches
-        if k not in H and any(ord(c) > 127 and c.isalnum() for c in str(x)):
+        if k not in H and any((ord(c) > 127 and c.isalnum()) or 0xD800 <= ord(c) <= 0xDFFF for c in str(x)):
             # the candidate itself contains a non-ASCII letter/digit that a unicode-aware \w or \d of its
             # pattern matched ('1999 N.Y.S.2d at 2004\U00010000'): Python's classes and Hyperscan's byte
             # classes do not coincide on this text for this pattern - outside the property's domain
